@@ -40,6 +40,7 @@ def dispatch(pid, tier):
         "C02": lambda: layout.run_layout("C02", tier),
         "C03": lambda: layout.run_layout("C03", tier),
     }
+    table["C18"] = lambda: __import__("pv.syntax", fromlist=["run_syntax"]).run_syntax("C18", tier)
     table["C20"] = lambda: __import__("pv.rewrite", fromlist=["run_rewrite"]).run_rewrite("C20", tier)
     if pid not in table:
         raise ToolError(f"no check registered for {pid}")
